@@ -35,6 +35,7 @@ fn instance_path(d: &Value) -> String {
         0 => format!("/{n}/x"),
         1 => format!("/{n}/abc"),
         2 => format!("/{n}/abc/sub/def"),
+        4 => "/".to_string(),
         _ => format!("/{n}/a/b"),
     }
 }
@@ -188,12 +189,20 @@ fn main() {
                 if want_doc != got_doc {
                     why.push("doc comment text");
                 }
+                // a typed body is documented under the declared content type (and nothing else)
+                if [2u64, 3].contains(&d["extractors"].as_u64().unwrap_or(0)) {
+                    let keys: Vec<String> = opv["requestBody"]["content"].as_object().map(|o| o.keys().cloned().collect()).unwrap_or_default();
+                    if keys != vec![d["content_type"].as_str().unwrap().to_string()] {
+                        why.push("request body content type");
+                    }
+                }
                 if !why.is_empty() {
                     ctx.report(Violation {
                         sig: json!({"kind":"document_differs_from_declaration","style": st.style, "why": why, "doc_block": d["doc_block"], "doc_split": d["doc_split_after_attr"]}),
                         case: case.clone(),
                         expected: json!({"version": p, "operationId": d["operation_id"], "tags": d["tags"], "deprecated": d["deprecated"], "doc_nonwhitespace": want_doc}),
-                        observed: json!({"operation": {"operationId": opv["operationId"], "tags": opv["tags"], "deprecated": opv["deprecated"], "summary": opv["summary"], "description": opv["description"]}}),
+                        observed: json!({"operation": {"operationId": opv["operationId"], "tags": opv["tags"], "deprecated": opv["deprecated"], "summary": opv["summary"], "description": opv["description"],
+                            "request_content_types": opv["requestBody"]["content"].as_object().map(|o| o.keys().cloned().collect::<Vec<_>>())}}),
                     });
                 }
                 if pi == 1 {
